@@ -189,6 +189,7 @@ FIELDS = {"obs": verif.field.Obs, "fcst": verif.field.Fcst, "aux": lambda: verif
           "pit": verif.field.Pit,
           "thr0.5": lambda: verif.field.Threshold(0.5), "thr2": lambda: verif.field.Threshold(2.0), "thr1": lambda: verif.field.Threshold(1.0),
           "q0.1": lambda: verif.field.Quantile(0.1), "q0.5": lambda: verif.field.Quantile(0.5),
+          "thr-1": lambda: verif.field.Threshold(-1.0), "thr-2": lambda: verif.field.Threshold(-2.0),
           "ens0": lambda: verif.field.Ensemble(0)}
 
 
@@ -521,11 +522,11 @@ def _do_request(gh, req, k):
     return [out] if single else list(out)
 
 
-def _pair(r1, r2, n_inputs=2, clim=None, obs_range=False, menu=MENU, same_slice=False):
+def _pair(r1, r2, n_inputs=2, clim=None, obs_range=False, menu=MENU, same_slice=False, prob=False):
     q1, q2 = menu[r1], menu[r2]
 
     def setup(G):
-        gh = ghost(G, n_inputs, clim=clim, obs_range=obs_range)
+        gh = ghost(G, n_inputs, clim=clim, obs_range=obs_range, prob=prob)
         gh.k1 = _slice_index(G, gh, q1[2])
         if r1 == r2 or same_slice:
             gh.k2 = gh.k1
@@ -577,6 +578,18 @@ for _a in sorted(CLIM_MENU):
         s, c, p = _pair(_a, _b, n_inputs=1, clim="subtract", menu=CLIM_MENU)
         register(Obligation("verif.data.Data.get_scores#INV:history-with-climatology[%s,%s]" % (_a, _b), ("C18", "C14"), s, c, p, modules=MOD,
                             functions=["verif.data.Data.get_scores", "verif.data.Data._get_score"]))
+# requests that differ only in WHICH probabilistic field they name: a stored threshold and an ensemble quantile with the same number,
+# two thresholds whose numbers have the same Python hash (hash(-1.0) == hash(-2.0)); same input, axis and slice
+PROB_MENU = {
+    "T": (("obs", "thr0.5"), 0, "time", False),
+    "U": (("obs", "q0.5"), 0, "time", False),
+    "V": (("obs", "thr-1"), 0, "time", False),
+    "W": (("obs", "thr-2"), 0, "time", False),
+}
+for _a, _b in (("T", "U"), ("U", "T"), ("V", "W"), ("W", "V")):
+    s, c, p = _pair(_a, _b, n_inputs=1, menu=PROB_MENU, same_slice=True, prob=True)
+    register(Obligation("verif.data.Data.get_scores#INV:history-probabilistic-fields[%s,%s,same-slice]" % (_a, _b), ("C18", "C08"), s, c, p, modules=MOD,
+                        functions=["verif.data.Data.get_scores", "verif.data.Data._get_score"]))
 for _a, _b in (("C", "A"), ("A", "C"), ("D", "A")):
     s, c, p = _pair(_a, _b, obs_range=True)
     register(Obligation("verif.data.Data.get_scores#INV:history-with-obsrange[%s,%s]" % (_a, _b), ("C18", "C03"), s, c, p, modules=MOD,
@@ -993,10 +1006,6 @@ for _n in (1, 2):
     register(Obligation("verif.data.Data.__init__#POST:location-options[%d-station%s]" % (_n, "s" if _n > 1 else ""), ("C03",), s, c, p, raises=r, modules=MOD,
                         functions=["verif.data.Data.__init__"],
                         doc="for all real / NaN / infinite station coordinates and all range end points; station count and the -l/-lx lists are fixed"))
-s, c, p, r = _location_ranges(3, menus=False)
-_o3 = register(Obligation("verif.data.Data.__init__#POST:location-options[3-stations,ranges-only]", ("C03",), s, c, p, raises=r, modules=MOD,
-                          functions=["verif.data.Data.__init__"], doc="thorough tier: three stations, the three ranges, no -l/-lx"))
-_o3.thorough_only = True
 
 
 # ----------------------------------------------------------------------------------------------
